@@ -8,6 +8,13 @@
        api 0: sc_notify_payload/payloadv with a notify object; 1: legacy sc_notify (binary), 2: sc_notify_allgather,
            3: sc_notify_ext; 4: sc_notify_nary
        barrier 1: MPI_Barrier between consecutive calls
+       hist 1 (optional 20th field, default 0; api 0 only): HISTORY on ONE notify object.  Every call c is preceded by one line
+             `H <ops>` that all ranks apply to the object before the call (the header's type/widths/ranges are NOT applied; the object
+             starts as sc_notify_new leaves it).  ops: `T t` sc_notify_set_type, `W a b c` sc_notify_nary_set_widths,
+             `R n` sc_notify_ranges_set_num_ranges, `E n` sc_notify_set_eager_threshold, `S k` sc_notify_superset_set_callback
+             (function k % 2, ctx = k: the superset pattern of the round is salted with the ctx the callback RECEIVES),
+             `N` destroy the object and create a new one.  After the ops every rank reports what the getters say:
+             CFG <call> <rank> <type> <eager_threshold> <x> <y> <z>   (nary: the widths; ranges: num_ranges 0 0; else 0 0 0)
        reuse 0 (default): fresh output arrays for every call; 1: the caller's output arrays (senders, out_payload, out_offsets)
              are created once and reused, unreset, for all calls of the case (a time loop); 2: as 1 and filled with junk
              elements before the first call
@@ -17,10 +24,12 @@
 #include <sc.h>
 #include <sc_notify.h>
 #include <simmpi.h>
+#include <stdint.h>
 
 typedef struct { int n; int *rcv; int *len; } item_t;
 typedef struct {
-  int P, type, ntop, nint, nbot, nranges, ncalls, sorted, sep_senders, paymode, paysize, sep_payload, api, barrier, reuse;
+  int P, type, ntop, nint, nbot, nranges, ncalls, sorted, sep_senders, paymode, paysize, sep_payload, api, barrier, reuse, hist;
+  char **ops;                   /* [call], hist only */
   long threshold; unsigned superseed;
   item_t *items;                /* [call][rank] */
   char *outbuf; size_t outlen, outcap;
@@ -43,12 +52,13 @@ static void emit (arg_t * a, const char *s, size_t l)
 }
 
 /* superset pattern: rank p additionally contacts q iff sup (call, p, q); symmetric knowledge through shared memory */
-static int sup (arg_t * a, int call, int p, int q)
+static int sup_salt (arg_t * a, int salt, int call, int p, int q)
 {
-  unsigned x = a->superseed + (unsigned) call * 7919u + (unsigned) p * 104729u + (unsigned) q * 1299709u;
+  unsigned x = a->superseed + (unsigned) salt * 15485863u + (unsigned) call * 7919u + (unsigned) p * 104729u + (unsigned) q * 1299709u;
   x ^= x >> 11; x *= 0x9e3779b1u; x ^= x >> 14;
   return (x % 4u) == 0;
 }
+static int sup (arg_t * a, int call, int p, int q) { return sup_salt (a, 0, call, p, q); }
 static int listed (item_t * it, int q) { for (int i = 0; i < it->n; ++i) if (it->rcv[i] == q) return 1; return 0; }
 
 static void compute_superset (sc_array_t * receivers, sc_array_t * extra_receivers, sc_array_t * super_senders, sc_notify_t * notify, void *ctx)
@@ -64,6 +74,55 @@ static void compute_superset (sc_array_t * receivers, sc_array_t * extra_receive
   }
 }
 
+/* history mode: two callback functions (so that a replaced function pointer is observable); the pattern depends on the ctx received */
+static void compute_superset_h (sc_array_t * receivers, sc_array_t * extra_receivers, sc_array_t * super_senders, sc_notify_t * notify, void *ctx)
+{
+  arg_t *a = G;
+  int salt = (int) (intptr_t) ctx;
+  int me = simmpi_current_rank ();
+  int call = a->curcall[me];
+  item_t *mine = &a->items[(size_t) call * a->P + me];
+  for (int q = 0; q < a->P; ++q) {
+    if (!listed (mine, q) && sup_salt (a, salt, call, me, q)) *(int *) sc_array_push (extra_receivers) = q;
+    item_t *his = &a->items[(size_t) call * a->P + q];
+    if (listed (his, me) || sup_salt (a, salt, call, q, me)) *(int *) sc_array_push (super_senders) = q;
+  }
+}
+static void compute_superset_h1 (sc_array_t * receivers, sc_array_t * extra_receivers, sc_array_t * super_senders, sc_notify_t * notify, void *ctx)
+{
+  /* same pattern as compute_superset_h, entries pushed in descending order (the callback's contract names sets, not orders) */
+  arg_t *a = G;
+  int salt = (int) (intptr_t) ctx;
+  int me = simmpi_current_rank ();
+  int call = a->curcall[me];
+  item_t *mine = &a->items[(size_t) call * a->P + me];
+  for (int q = a->P - 1; q >= 0; --q) {
+    if (!listed (mine, q) && sup_salt (a, salt, call, me, q)) *(int *) sc_array_push (extra_receivers) = q;
+    item_t *his = &a->items[(size_t) call * a->P + q];
+    if (listed (his, me) || sup_salt (a, salt, call, q, me)) *(int *) sc_array_push (super_senders) = q;
+  }
+}
+
+static void apply_ops (arg_t * a, sc_notify_t ** pn, const char *ops)
+{
+  const char *p = ops;
+  char op; int n = 0, x, y, z;
+  while (sscanf (p, " %c%n", &op, &n) == 1) {
+    p += n;
+    switch (op) {
+    case 'H': break;
+    case 'T': if (sscanf (p, "%d%n", &x, &n) != 1) return; p += n; sc_notify_set_type (*pn, (sc_notify_type_t) x); break;
+    case 'W': if (sscanf (p, "%d %d %d%n", &x, &y, &z, &n) != 3) return; p += n; sc_notify_nary_set_widths (*pn, x, y, z); break;
+    case 'R': if (sscanf (p, "%d%n", &x, &n) != 1) return; p += n; sc_notify_ranges_set_num_ranges (*pn, x); break;
+    case 'E': if (sscanf (p, "%d%n", &x, &n) != 1) return; p += n; sc_notify_set_eager_threshold (*pn, (size_t) x); break;
+    case 'S': if (sscanf (p, "%d%n", &x, &n) != 1) return; p += n;
+      sc_notify_superset_set_callback (*pn, (x % 2) ? compute_superset_h1 : compute_superset_h, (void *) (intptr_t) x); break;
+    case 'N': sc_notify_destroy (*pn); *pn = sc_notify_new (sc_MPI_COMM_WORLD); break;
+    default: return;
+    }
+  }
+}
+
 static void rank_main (int rank, int size, void *varg)
 {
   arg_t *a = (arg_t *) varg;
@@ -72,10 +131,10 @@ static void rank_main (int rank, int size, void *varg)
   if (a->api == 0) {
     sc_notify_eager_threshold_default = (size_t) a->threshold;
     notify = sc_notify_new (sc_MPI_COMM_WORLD);
-    sc_notify_set_type (notify, (sc_notify_type_t) a->type);
-    if (a->type == SC_NOTIFY_NARY) sc_notify_nary_set_widths (notify, a->ntop, a->nint, a->nbot);
-    if (a->type == SC_NOTIFY_RANGES) sc_notify_ranges_set_num_ranges (notify, a->nranges);
-    if (a->type == SC_NOTIFY_SUPERSET) sc_notify_superset_set_callback (notify, compute_superset, NULL);
+    if (!a->hist) sc_notify_set_type (notify, (sc_notify_type_t) a->type);
+    if (!a->hist && a->type == SC_NOTIFY_NARY) sc_notify_nary_set_widths (notify, a->ntop, a->nint, a->nbot);
+    if (!a->hist && a->type == SC_NOTIFY_RANGES) sc_notify_ranges_set_num_ranges (notify, a->nranges);
+    if (!a->hist && a->type == SC_NOTIFY_SUPERSET) sc_notify_superset_set_callback (notify, compute_superset, NULL);
   }
   /* output arrays owned by the caller and kept over all calls of the case (reuse != 0) */
   sc_array_t *keep_senders = NULL, *keep_out_pay = NULL, *keep_out_off = NULL;
@@ -90,6 +149,15 @@ static void rank_main (int rank, int size, void *varg)
   for (int c = 0; c < a->ncalls; ++c) {
     item_t *it = &a->items[(size_t) c * a->P + rank];
     a->curcall[rank] = c;
+    if (a->hist && notify) {
+      int t, x = 0, y = 0, z = 0;
+      if (a->ops && a->ops[c]) apply_ops (a, &notify, a->ops[c]);
+      t = (int) sc_notify_get_type (notify);
+      if (t == SC_NOTIFY_NARY) sc_notify_nary_get_widths (notify, &x, &y, &z);
+      if (t == SC_NOTIFY_RANGES) x = sc_notify_ranges_get_num_ranges (notify);
+      int l = snprintf (line, sizeof line, "CFG %d %d %d %ld %d %d %d\n", c, rank, t, (long) sc_notify_get_eager_threshold (notify), x, y, z);
+      emit (a, line, (size_t) l);
+    }
     sc_array_t *receivers = sc_array_new_count (sizeof (int), (size_t) it->n);
     sc_array_t *senders = a->sep_senders ? (keep_senders ? keep_senders : sc_array_new (sizeof (int))) : NULL;
     sc_array_t *in_pay = NULL, *out_pay = NULL, *in_off = NULL, *out_off = NULL;
@@ -171,12 +239,18 @@ int main (void)
   while (fgets (line, sizeof line, stdin)) {
     arg_t a; int adv; unsigned long seed;
     memset (&a, 0, sizeof a);
-    if (sscanf (line, "%d %lu %d %d %d %d %d %d %d %d %d %d %d %d %ld %d %u %d %d", &a.P, &seed, &adv, &a.type, &a.ntop, &a.nint, &a.nbot, &a.nranges,
-                &a.ncalls, &a.sorted, &a.sep_senders, &a.paymode, &a.paysize, &a.sep_payload, &a.threshold, &a.api, &a.superseed, &a.barrier, &a.reuse) < 18) continue;
+    if (sscanf (line, "%d %lu %d %d %d %d %d %d %d %d %d %d %d %d %ld %d %u %d %d %d", &a.P, &seed, &adv, &a.type, &a.ntop, &a.nint, &a.nbot, &a.nranges,
+                &a.ncalls, &a.sorted, &a.sep_senders, &a.paymode, &a.paysize, &a.sep_payload, &a.threshold, &a.api, &a.superseed, &a.barrier, &a.reuse, &a.hist) < 18) continue;
+    if (a.api != 0) a.hist = 0;
     size_t nit = (size_t) a.ncalls * a.P;
     a.items = (item_t *) calloc (nit + 1, sizeof (item_t));
+    if (a.hist) a.ops = (char **) calloc ((size_t) a.ncalls + 1, sizeof (char *));
     for (size_t k = 0; k < nit; ++k) {
       if (!fgets (line, sizeof line, stdin)) break;
+      if (a.hist && k % (size_t) a.P == 0) {      /* the ops line in front of every call */
+        a.ops[k / (size_t) a.P] = strdup (line);
+        if (!fgets (line, sizeof line, stdin)) break;
+      }
       char *p = strtok (line, " \n");
       int n = atoi (p);
       a.items[k].n = n;
@@ -206,6 +280,7 @@ int main (void)
     printf ("END %d mem=%d\n", run, rc ? 0 : (sc_memory_status (-1) + sc_memory_status (sc_package_id)) - mem0);
     simmpi_report_free (&rep);
     for (size_t k = 0; k < nit; ++k) { free (a.items[k].rcv); free (a.items[k].len); }
+    if (a.ops) { for (int k = 0; k < a.ncalls; ++k) free (a.ops[k]); free (a.ops); }
     free (a.items); free (a.outbuf);
     ++run;
     fflush (stdout);
